@@ -59,7 +59,7 @@ PROPS = {
         "functions": ["RefSka::new.collect_record", "SplitKmer::new", "SplitKmer::build", "SplitKmer::roll_fwd", "SplitKmer::update_rc",
                       "SplitKmer::get_curr_kmer", "SplitKmer::get_next_kmer", "SplitKmer::get_middle_pos",
                       "AlnWriter::new", "AlnWriter::total_size", "AlnWriter::fill_fwd_bases", "AlnWriter::fill_contig",
-                      "AlnWriter::write_split_kmer", "AlnWriter::finalise", "AlnWriter::get_seq", "is_ambiguous",
+                      "AlnWriter::write_split_kmer", "AlnWriter::finalise", "AlnWriter::get_seq", "is_ambiguous", "pseudoalignment.step",
                       "RefSka::new.repeat_coords"],
         "kani": [("tables", ["oracle_bijective", "rc_iupac_complement", "rc_iupac_fixed_points", "is_ambiguous_classification", "leaf_fns_all_bytes"]), ("tablefrag", ["map_strand_correction"])],
         "bounded": [],
